@@ -57,8 +57,8 @@ enum Op {
     Get(u64, u64),
     Search(u64, V, u64),
     SearchMetric(V, u64, u64),
-    /// (collection, query, k, tag value b, strategy 0 auto / 1 pre / 2 post)
-    SearchFiltered(u64, V, u64, u64, u64),
+    /// (collection, query, k, tag value b, strategy 0 auto / 1 pre / 2 post, oversample_factor)
+    SearchFiltered(u64, V, u64, u64, u64, u64),
 }
 impl Op {
     fn coq(&self) -> String {
@@ -75,7 +75,7 @@ impl Op {
             Op::Get(c, k) => format!("OGet {c} {k}"),
             Op::Search(c, q, k) => format!("OSearch {c} {} {k}", vcoq(q)),
             Op::SearchMetric(q, k, m) => format!("OSearchMetric {} {k} {m}", vcoq(q)),
-            Op::SearchFiltered(c, q, k, b, st) => format!("OSearchFiltered {c} {} {k} {b} {st}", vcoq(q)),
+            Op::SearchFiltered(c, q, k, b, st, ov) => format!("OSearchFiltered {c} {} {k} {b} {st} {ov}", vcoq(q)),
         }
     }
 }
@@ -204,12 +204,18 @@ impl Env {
             Op::Search(0, q, k) => Self::res(e.search_similar(&fl(q), *k as usize)),
             Op::Search(c, q, k) => Self::res(e.search_in_collection(&cname(*c), &fl(q), *k as usize)),
             Op::SearchMetric(q, k, m) => Self::res(e.search_similar_with_metric(&fl(q), *k as usize, metric_of(*m))),
-            Op::SearchFiltered(c, q, k, b, st) => {
+            Op::SearchFiltered(c, q, k, b, st, ov) => {
                 let filter = vector_engine::FilterCondition::Eq("tag".to_string(), vector_engine::FilterValue::String(format!("t{b}")));
-                let cfg = match st {
-                    1 => Some(vector_engine::FilteredSearchConfig::pre_filter()),
-                    2 => Some(vector_engine::FilteredSearchConfig::post_filter()),
-                    _ => None,
+                let strategy = match st {
+                    1 => vector_engine::FilterStrategy::PreFilter,
+                    2 => vector_engine::FilterStrategy::PostFilter,
+                    _ => vector_engine::FilterStrategy::Auto,
+                };
+                // the default configuration is passed as None, everything else explicitly
+                let cfg = if *st == 0 && *ov == 3 {
+                    None
+                } else {
+                    Some(vector_engine::FilteredSearchConfig { strategy, selectivity_threshold: 0.1, oversample_factor: *ov as usize })
                 };
                 if *c == 0 {
                     Self::res(e.search_similar_filtered(&fl(q), *k as usize, &filter, cfg))
@@ -307,7 +313,7 @@ fn run_trace_cfg(ncoll: u64, maxd: u64, ops: &[Op]) -> (String, bool) {
             }
         }
         match op {
-            Op::Search(c, q, _) | Op::SearchFiltered(c, q, _, _, _) => {
+            Op::Search(c, q, _) | Op::SearchFiltered(c, q, _, _, _, _) => {
                 queries.insert((0, q.clone()));
                 queries.insert((10, q.clone()));
                 if built.get(c).copied().unwrap_or(false) {
@@ -492,7 +498,7 @@ fn gen_ops(r: &mut Rng, ncoll: u64, len: usize, dist: &mut Dist) -> (u64, Vec<Op
                 ops.push(Op::Search(coll(r), q, kk));
                 dist.hit("op.search");
             } else if k < 95 {
-                ops.push(Op::SearchFiltered(coll(r), q, kk, r.below(2), r.below(3)));
+                ops.push(Op::SearchFiltered(coll(r), q, kk, r.below(2), r.below(3), *r.pick(&[3u64, 3, 1, 0, 2])));
                 dist.hit("op.search_filtered");
             } else {
                 ops.push(Op::SearchMetric(q, kk, r.below(3)));
@@ -507,11 +513,16 @@ fn gen_ops(r: &mut Rng, ncoll: u64, len: usize, dist: &mut Dist) -> (u64, Vec<Op
 /// dimension, 1..k-1 matching ones inside the top 3k, at least k more matching ones below it.
 /// tag = key mod 2; vectors [1, 0.02 * rank] are ranked by similarity to [1, 0].
 fn gen_partial_window(r: &mut Rng, c: u64, dist: &mut Dist) -> Vec<Op> {
+    gen_window(r, c, 3, dist)
+}
+/// the same for any oversample factor `ovs` (window = max(k * ovs, k)); with ovs <= 1 the window is the
+/// top k itself and may hold no match at all: the matching vectors are ranked beyond top_k
+fn gen_window(r: &mut Rng, c: u64, ovs: u64, dist: &mut Dist) -> Vec<Op> {
     let k = r.range(2, 4);
     let b = r.below(2); // the tag searched for
-    let inside = r.range(1, k - 1); // matches inside the window
+    let inside = if ovs <= 1 { r.range(0, k - 1) } else { r.range(1, k - 1) }; // matches inside the window
     let below = k + r.below(3); // matches below the window
-    let window = 3 * k;
+    let window = (k * ovs).max(k);
     let mut ops = vec![];
     let mut next_match = b; // keys with key % 2 == b
     let mut next_other = 1 - b;
@@ -548,9 +559,41 @@ fn gen_partial_window(r: &mut Rng, c: u64, dist: &mut Dist) -> Vec<Op> {
     ops.extend(stores);
     let q = vec![b32(1.0), b32(0.0)];
     for strat in [2u64, 0, 1] {
-        ops.push(Op::SearchFiltered(c, q.clone(), k, b, strat));
+        ops.push(Op::SearchFiltered(c, q.clone(), k, b, strat, ovs));
     }
-    dist.hit("filtered.partial_window");
+    dist.hit(&format!("filtered.partial_window.oversample{ovs}"));
+    ops
+}
+
+/// A cached index over a collection that holds ALL-ZERO vectors among others (stored before the build),
+/// then index-answered searches that return every key: each (key, score) is compared with the exact scan.
+fn gen_zero_index(r: &mut Rng, c: u64, dist: &mut Dist) -> Vec<Op> {
+    let dim = *r.pick(&[3usize, 3, 2, 4]);
+    let nk = r.range(4, 9);
+    let mut keys: Vec<u64> = (0..14).collect();
+    r.shuffle(&mut keys);
+    keys.truncate(nk as usize);
+    let nzero = r.range(1, 2) as usize;
+    let mut ops = vec![];
+    let mut vecs = vec![];
+    for (i, key) in keys.iter().enumerate() {
+        let v: V = if i < nzero {
+            vec![b32(if r.chance(1, 3) { -0.0 } else { 0.0 }); dim]
+        } else {
+            // distinct directions so that a key carrying another vector's score is visible
+            bits(&(0..dim).map(|j| ((i * 7 + j * 3) % 11) as f32 - 4.5).collect::<Vec<f32>>())
+        };
+        vecs.push(v.clone());
+        ops.push(if r.chance(1, 4) { Op::StoreMeta(c, *key, v) } else { Op::Store(c, *key, v) });
+    }
+    r.shuffle(&mut ops);
+    ops.push(Op::Build(c));
+    for _ in 0..3 {
+        let q = if r.chance(1, 2) { r.pick(&vecs[nzero..]).clone() } else { gen_vec(r, dim, dist) };
+        ops.push(Op::Search(c, q.clone(), 20));
+        ops.push(Op::Search(c, q, r.range(1, 3)));
+    }
+    dist.hit("index.zero_vectors_before_build");
     ops
 }
 
@@ -602,9 +645,9 @@ fn main() {
                 Op::StoreMeta(0, 4, f(1.0, 0.2)),
                 Op::StoreMeta(0, 6, f(1.0, 0.3)),
                 Op::StoreMeta(0, 1, f(0.0, 1.0)),
-                Op::SearchFiltered(0, f(1.0, 0.0), 1, 1, 0),
-                Op::SearchFiltered(0, f(1.0, 0.0), 1, 1, 1),
-                Op::SearchFiltered(0, f(1.0, 0.0), 1, 1, 2),
+                Op::SearchFiltered(0, f(1.0, 0.0), 1, 1, 0, 3),
+                Op::SearchFiltered(0, f(1.0, 0.0), 1, 1, 1, 3),
+                Op::SearchFiltered(0, f(1.0, 0.0), 1, 1, 2, 3),
             ],
             "corpus F-C06-postfilter default collection (auto / pre / post)",
         ));
@@ -615,8 +658,8 @@ fn main() {
                 Op::StoreMeta(1, 4, f(1.0, 0.2)),
                 Op::StoreMeta(1, 6, f(1.0, 0.3)),
                 Op::StoreMeta(1, 1, f(0.0, 1.0)),
-                Op::SearchFiltered(1, f(1.0, 0.0), 1, 1, 0),
-                Op::SearchFiltered(1, f(1.0, 0.0), 1, 1, 2),
+                Op::SearchFiltered(1, f(1.0, 0.0), 1, 1, 0, 3),
+                Op::SearchFiltered(1, f(1.0, 0.0), 1, 1, 2, 3),
             ],
             "corpus F-C06-postfilter named collection",
         ));
@@ -682,6 +725,22 @@ fn main() {
         let (t, _) = run_trace(2, &norms);
         trace.push(&t, &format!("corpus tiny-norm / huge-norm vectors and queries with a cached index ops={:?}", norms), true);
         dist.hit("corpus");
+        // all-zero vectors stored among others BEFORE the index is built, then index-answered searches
+        let mut zr = Rng::new(0x2E70);
+        for c in [0u64, 0, 0, 1, 0] {
+            let ops = gen_zero_index(&mut zr, c, &mut dist);
+            let (t, _) = run_trace(2, &ops);
+            trace.push(&t, &format!("corpus all-zero vectors before build_and_cache_index, collection {c} ops={:?}", ops), true);
+            dist.hit("corpus");
+        }
+        // oversample_factor 0 and 1 (post-filter and auto): the matching vectors are ranked beyond top_k
+        let mut orr = Rng::new(0x0F5);
+        for (c, ovs) in [(0u64, 1u64), (1, 1), (0, 0), (1, 0), (0, 2), (1, 1)] {
+            let ops = gen_window(&mut orr, c, ovs, &mut dist);
+            let (t, _) = run_trace(2, &ops);
+            trace.push(&t, &format!("corpus filtered search oversample_factor={ovs}, matches beyond top_k, collection {c} ops={:?}", ops), true);
+            dist.hit("corpus");
+        }
         // partly filled oversample windows, default and named collection
         let mut cr = Rng::new(0xC06);
         for c in [1u64, 0, 1, 0] {
@@ -697,12 +756,19 @@ fn main() {
         let ncoll = *rng.pick(&[1u64, 2, 2, 3]);
         let len = rng.range(4, 26) as usize;
         let (maxd, mut ops) = gen_ops(&mut rng, ncoll, len, &mut dist);
-        if rng.chance(1, 8) {
-            // a partly filled oversample window somewhere in the program (fresh collection keys may collide
+        if rng.chance(1, 5) {
+            // a partly filled oversample window / a zero-vector index scenario somewhere in the program (fresh collection keys may collide
             // with earlier ones: that only changes which case it is)
             let c = if ncoll > 1 && rng.chance(2, 3) { rng.range(1, ncoll - 1) } else { 0 };
             let at = rng.below(ops.len() as u64 + 1) as usize;
-            let extra = gen_partial_window(&mut rng, c, &mut dist);
+            let extra = match rng.below(3) {
+                0 => gen_partial_window(&mut rng, c, &mut dist),
+                1 => {
+                    let ovs = rng.below(3);
+                    gen_window(&mut rng, c, ovs, &mut dist)
+                }
+                _ => gen_zero_index(&mut rng, c, &mut dist),
+            };
             let tail = ops.split_off(at);
             ops.extend(extra);
             ops.extend(tail);
